@@ -158,7 +158,7 @@ claim('C15',
       'NOT claimed (deciding computation is LAPACK/C behind FFI, no encoding within reach; with concrete matrices the claim would degenerate '
       'to a unit test): computechi2 beyond 2 parameters or rank-deficient, pcomp and HMF.reorder (eigh), pca_solve, k-means seeding / seed determinism, '
       '"caller\'s arrays not modified". numpy.linalg.solve is an exact-rational contract stub; numpy.linalg.svd is a contract stub that '
-      'hands out the decomposition named by the harness only after verifying U diag(w) Vh = input, orthonormality, sign and order. Fourth round: the order in which the lazy results of computechi2 are read is a solver choice among four orders containing every ordered pair of attributes; each result is read twice.', 'DESIGN.md 4/C15 and 9.2')
+      'hands out the decomposition named by the harness only after verifying U diag(w) Vh = input, orthonormality, sign and order. Fourth round: the lazy results of computechi2 are read in four different orders (one obligation each, together containing every ordered pair of attributes); each result is read twice.', 'DESIGN.md 4/C15 and 9.2')
 claim('C11',
       'PARTIAL. combine1fiber (1-D, and stacks of two exposures with different coverage: zero pattern of the inverse variance), aesthetics, djs_maskinterp, smooth and the shift arithmetic of preprocess_spectra are executed with the '
       'spline fit replaced by an ARBITRARY fit outcome (fresh symbolic flux per evaluated pixel, symbolic evaluation mask, symbolic '
